@@ -120,15 +120,20 @@ func main() {
 			switch {
 			case returned > 0 && discarded == 0 && other == 0:
 				lines = append(lines, "/-- the closure around `cmd.Wait()` returns `ee.ExitCode()` -/",
-					"def waitReturnsExitCode : Bool := true")
+					"def waitReturnsExitCode : Bool := true\ndef waitReturnsExitCode? : Option Bool := some true")
 			case returned == 0 && discarded > 0 && other == 0:
 				lines = append(lines, "/-- the closure around `cmd.Wait()` evaluates `ee.ExitCode()` as a statement and returns 0 -/",
-					"def waitReturnsExitCode : Bool := false")
+					"def waitReturnsExitCode : Bool := false\ndef waitReturnsExitCode? : Option Bool := some false")
 			default:
 				notes = append(notes, fmt.Sprintf("waitReturnsExitCode: unrecognised shape (returned=%d discarded=%d other=%d)", returned, discarded, other))
 			}
 		} else {
 			notes = append(notes, "waitReturnsExitCode: no function literal calling Wait()")
+		}
+		if len(lines) == 0 {
+			// the driver (which only reads the `…?` form) keeps building so that the search for a
+			// failing input can run; the theorems need the plain form: tie broken.
+			lines = append(lines, "-- waitReturnsExitCode not recognised", "def waitReturnsExitCode? : Option Bool := none")
 		}
 
 		// ---- fact 2: expandEnv on the elements of Split's result ----
